@@ -433,7 +433,7 @@ func runHookTimeoutCase(a args, idx int) {
 	defer os.Remove(trace)
 	tok := func(s string) string { return fmt.Sprintf("printf '%s\\n' >> '%s'", s, trace) }
 	script := filepath.Join(a.Work, fmt.Sprintf("hook.%d.sh", idx))
-	os.WriteFile(script, []byte(fmt.Sprintf("trap '' INT\nprintf 'h1.start\\n' >> '%s'\nsleep 0.9\nprintf 'h1.end\\n' >> '%s'\n", trace, trace)), 0o755)
+	h.WriteExec(script, []byte(fmt.Sprintf("trap '' INT\nprintf 'h1.start\\n' >> '%s'\nsleep 0.9\nprintf 'h1.end\\n' >> '%s'\n", trace, trace)), 0o755)
 	defer os.Remove(script)
 	t := task.NewTask()
 	t.Name = fmt.Sprintf("hooktimeout%d", idx)
